@@ -722,21 +722,21 @@ Definition step (st : store) (o : op) : res store :=
     if Nat.eqb r o then Ok (upd st r (empty_stream rs))
     else do s <- imol_separate_out rs os; Ok (upd st r s)
   | OCopyFlow d s i remove exclude =>
+    (* d = s (a stream copied onto itself) needs no special case: the copy leaves the data as it is and
+       the removal, written last, then takes the selected flows away *)
     do ds <- gets st d; do ss <- gets st s;
-    if Nat.eqb d s then Err EOther                          (* not modelled: copying onto itself *)
-    else match ds with
-         | MS _ => Err EOther                               (* MultiStream.copy_flow: see OCopyFlowM *)
-         | SS c => do r <- copy_flow c ss i remove exclude;
-                   Ok (upd (upd st d (fst r)) s (snd r))
-         end
+    match ds with
+    | MS _ => Err EOther                               (* MultiStream.copy_flow: see OCopyFlowM *)
+    | SS c => do r <- copy_flow c ss i remove exclude;
+              Ok (upd (upd st d (fst r)) s (snd r))
+    end
   | OCopyFlowM d s ps i remove exclude =>
     do ds <- gets st d; do ss <- gets st s;
-    if Nat.eqb d s then Err EOther                          (* not modelled: copying onto itself *)
-    else match ds with
-         | SS _ => Err EOther                               (* Stream.copy_flow has no phase selector *)
-         | MS m => do r <- copy_flow_m m ss ps i remove exclude;
-                   Ok (upd (upd st d (fst r)) s (snd r))
-         end
+    match ds with
+    | SS _ => Err EOther                               (* Stream.copy_flow has no phase selector *)
+    | MS m => do r <- copy_flow_m m ss ps i remove exclude;
+              Ok (upd (upd st d (fst r)) s (snd r))
+    end
   | OScale i k => do s <- gets st i; Ok (upd st i (scale k s))
   | OMul i k => do s <- gets st i; Ok (st ++ [scale k s])
   end.
@@ -754,14 +754,20 @@ Fixpoint run (st : store) (ops : list op) : res store :=
                    indexer shares the SparseVector of cell j and has its own phase
      HView j p     multistream[p]: the cached per-phase sub-stream, a Stream whose indexer wraps the row
                    object of phase p (MaterialIndexer.get_phase; _expand_phases keeps the row objects)
+     HLink j phs   one of several linked MultiStreams (link_with) on cell j - both partners are HLink handles:
+                   each indexer shares the SparseArray (the rows) and has its own phases tuple; the cell
+                   records the phases the rows were last laid out for.  When one partner expands its phases
+                   the other keeps the old tuple over the longer rows list (the model shows exactly that)
    Every modelled operation mutates the data in place except where the stream's indexer is replaced
    (phases setters: fallback of mix_from, copy_like from a stream with several phases into a Stream,
-   split_to setting the outlets' phases); those are allowed only on a handle that is the only one on
-   its cell ([exclusive]) - otherwise [astep] answers Err EOther (outside the modelled fragment, never
-   generated).  An operation is the value-level [step] on the handles' views, written back to the cells. *)
-Inductive handle := HCell (j : nat) | HProxy (j : nat) (ph : phase) | HView (j : nat) (p : phase).
+   split_to setting the outlets' phases): then that stream gets new flow data of its own and the other
+   handles stay on the old data, which keeps what was written in place before the replacement
+   ([rebind_info]).  An operation is the value-level [step] on the handles' views, written back to the cells. *)
+Inductive handle := HCell (j : nat) | HProxy (j : nat) (ph : phase) | HView (j : nat) (p : phase)
+                  | HLink (j : nat) (phs : list phase).
 Record astore := mka { cells : store; hs : list handle }.
-Definition hcell (h : handle) : nat := match h with HCell j => j | HProxy j _ => j | HView j _ => j end.
+Definition hcell (h : handle) : nat :=
+  match h with HCell j => j | HProxy j _ => j | HView j _ => j | HLink j _ => j end.
 Definition view_of (cs : store) (h : handle) : res stream :=
   match h with
   | HCell j => gets cs j
@@ -772,6 +778,8 @@ Definition view_of (cs : store) (h : handle) : res stream :=
                  | MS m => do i <- phase_index p (mphases m); Ok (SS (mkc (mpkg m) p (nth i (mrows m) [])))
                  | SS _ => Err EOther
                  end
+  | HLink j phs => do s <- gets cs j;
+                   match s with MS m => Ok (MS (mkm (mpkg m) phs (mrows m))) | SS _ => Err EOther end
   end.
 Fixpoint views (cs : store) (l : list handle) : res store :=
   match l with
@@ -788,23 +796,92 @@ Definition is_view (l : list handle) (k : nat) : bool :=
   match nth_error l k with Some (HView _ _) => true | _ => false end.
 Definition kind_at (vst : store) (k : nat) : bool :=       (* true = multi-phase *)
   match nth_error vst k with Some (MS _) => true | _ => false end.
-(* does the operation replace the indexer of a target (so that other handles would be left behind)? *)
+(* which streams an operation writes to; sub-streams are not used as receivers, and a history stops once a
+   linked MultiStream is out of step with its rows (the phases tuple and the rows list differ in length) *)
+Definition synced (s : stream) : bool :=
+  match s with SS _ => true | MS m => Nat.eqb (length (mphases m)) (length (mrows m)) end.
 Definition safe_op (l : list handle) (vst : store) (o : op) : bool :=
+  forallb synced vst &&
   match o with
   | OMix r ins eb hf =>
+    (* outside the modelled fragment (reported as findings): the multi-phase fallback re-reads inlets that
+       share the receiver's data after the first, in-place mix; a multi-phase receiver reads a linked
+       MultiStream through that stream's own (possibly stale) phases while it expands the shared rows *)
+    let cell_of := fun k => match nth_error l k with Some h => Some (hcell h) | None => None end in
+    let shares_r := fun i => negb (Nat.eqb i r) &&
+                             match cell_of i, cell_of r with Some a, Some b => Nat.eqb a b | _, _ => false end in
     negb (is_view l r) &&
-    (exclusive l r ||
-     (Nat.eqb hf 0 && (negb eb || kind_at vst r || forallb (fun i => negb (kind_at vst i)) ins)))
-  | OSplit f s1 s2 sp eb =>
-    let inplace := fun k => negb (kind_at vst k) &&
-                            (negb (kind_at vst f) || (negb eb && negb (kind_at vst s1) && negb (kind_at vst s2))) in
-    negb (is_view l s1) && negb (is_view l s2) &&
-    (exclusive l s1 || inplace s1) && (exclusive l s2 || inplace s2)
+    negb (eb && negb (Nat.eqb hf 0) && existsb shares_r ins) &&
+    negb (kind_at vst r && existsb (fun i => shares_r i && negb (is_view l i)) ins)
+  | OSplit _ s1 s2 _ _ => negb (is_view l s1) && negb (is_view l s2)
   | OSep r _ => negb (is_view l r)
   | OCopyFlow d _ _ _ _ => negb (is_view l d)
   | OCopyFlowM d _ _ _ _ _ => negb (is_view l d)
   | OScale i _ => negb (is_view l i)
   | OMul _ _ => true
+  end.
+(* Does the operation REPLACE the indexer of target k (phases setters), and what does it leave in the old
+   flow data?  Then the stream gets new data of its own and every other handle stays on the old data. *)
+Definition rebound (old new : stream) : bool :=
+  match old, new with
+  | SS _, SS _ => false
+  | MS a, MS b => negb (phases_eqb (mphases a) (mphases b))
+  | _, _ => true
+  end.
+Definition mix_rebind (st : store) (r : nat) (ins : list nat) (eb : bool) (hf : nat) : option stream :=
+  match gets st r, gets_all st ins with
+  | Ok rs, Ok all =>
+    match filter (fun js => negb (isempty (snd js))) all with
+    | [] => None
+    | [js] =>
+      if eb && negb (Nat.eqb r (fst js)) then
+        match rs, snd js with
+        | SS c, MS o =>
+          match mphases o, mrows o with
+          | [p], [r0] => None
+          | _, _ => match set_phases (empty_stream rs) (mphases o) with      (* self.empty(); self.phases = ... *)
+                    | Ok (MS _) => Some (empty_stream rs)
+                    | _ => None
+                    end
+          end
+        | _, _ => None
+        end
+      else None
+    | ne =>
+      if eb then
+        match imol_mix_from rs (map to_inl_copy ne) with
+        | Ok r1 =>
+          match set_H hf r1 with
+          | (r2, _, false) =>                                              (* the first mix was done in place *)
+            match set_phases r2 (phase_str r2 ++
+                    flat_map (fun js => if Nat.eqb r (fst js) then phase_str r2 else phase_str (snd js)) all) with
+            | Ok r3 => if rebound r2 r3 then Some r2 else None
+            | Err _ => None
+            end
+          | _ => None
+          end
+        | Err _ => None
+        end
+      else None
+    end
+  | _, _ => None
+  end.
+Definition split_rebinds (f s1 s2 : stream) (eb : bool) (s : stream) : bool :=
+  match f with
+  | SS _ => eb && is_multi s                                              (* s.phase = feed.phase *)
+  | MS m => if eb || is_multi s1 || is_multi s2
+            then match set_phases s (mphases m) with Ok o => rebound s o | Err _ => false end
+            else false
+  end.
+Definition rebind_info (vst : store) (o : op) (k : nat) : option stream :=
+  match o with
+  | OMix r ins eb hf => mix_rebind vst r ins eb hf
+  | OSplit f s1 s2 sp eb =>
+    match gets vst f, gets vst s1, gets vst s2, gets vst k with
+    | Ok fs, Ok a, Ok b, Ok s => if split_rebinds fs a b eb s then Some s else None
+    | _, _, _, _ => None
+    end
+  | _ => None
   end.
 Definition targets (o : op) : list nat :=
   match o with
@@ -833,12 +910,36 @@ Definition write_back (a : astore) (k : nat) (s' : stream) : res astore :=
                      Ok (mka (upd (cells a) j (MS (mkm (mpkg m) (mphases m) (upd (mrows m) i (crow c'))))) (hs a))
     | _, _ => Err EOther
     end
+  | Some (HLink j phs) =>
+    do old <- gets (cells a) j;
+    match old, s' with
+    | MS m, MS m' => Ok (mka (upd (cells a) j (MS (mkm (mpkg m) (mphases m') (mrows m'))))
+                             (upd (hs a) k (HLink j (mphases m'))))
+    | _, _ => Err EOther
+    end
   | None => Err EIndex
   end.
-Fixpoint write_all (a : astore) (vst' : store) (ks : list nat) : res astore :=
+Definition write_target (a : astore) (vst vst' : store) (o : op) (k : nat) : res astore :=
+  do s' <- gets vst' k;
+  match rebind_info vst o k with
+  | None => write_back a k s'
+  | Some resid =>
+    do a1 <- write_back a k resid;
+    let n := length (cells a1) in
+    (* MultiStream.phases setter: the cached sub-streams whose phase the new indexer has are re-pointed to
+       the new rows (the others are dropped from the cache and stay on the old data) *)
+    let follow := fun h =>
+      match nth_error (hs a) k, s', h with
+      | Some (HCell j), MS m', HView j' p =>
+        if Nat.eqb j j' && in_indexer p (mphases m') && kind_at vst k then HView n p else h
+      | _, _, _ => h
+      end in
+    Ok (mka (cells a1 ++ [s']) (upd (map follow (hs a1)) k (HCell n)))
+  end.
+Fixpoint write_all (a : astore) (vst vst' : store) (o : op) (ks : list nat) : res astore :=
   match ks with
   | [] => Ok a
-  | k :: t => do s' <- gets vst' k; do a' <- write_back a k s'; write_all a' vst' t
+  | k :: t => do a' <- write_target a vst vst' o k; write_all a' vst vst' o t
   end.
 (* MaterialIndexer.copy_like(single-phase source) starts with self.empty(): when the only non-empty inlet
    of an energy-balanced mix is a sub-stream of the receiver itself, the source row is wiped before it is
@@ -848,7 +949,7 @@ Definition own_view_only (l : list handle) (vst : store) (r : nat) (ins : list n
   match filter (fun i => match nth_error vst i with Some s => negb (isempty s) | None => false end) ins with
   | [i] => negb (Nat.eqb i r) &&
            match nth_error l i, nth_error l r with
-           | Some hi, Some hr => Nat.eqb (hcell hi) (hcell hr)
+           | Some (HView j _), Some hr => Nat.eqb j (hcell hr)
            | _, _ => false
            end
   | _ => false
@@ -865,7 +966,7 @@ Definition astep (a : astore) (o : op) : res astore :=
   do vst <- views (cells a) (hs a);
   if negb (safe_op (hs a) vst o) then Err EOther else
   do vst' <- astep_values (hs a) vst o;
-  do a' <- write_all a vst' (targets o);
+  do a' <- write_all a vst vst' o (targets o);
   match o with
   | OMul _ _ => do s <- gets vst' (length vst);               (* the product is a new, unshared stream *)
                 Ok (mka (cells a' ++ [s]) (hs a' ++ [HCell (length (cells a'))]))
